@@ -323,6 +323,9 @@ void harness(void) {
                      "C06,C04: on failure the partial copy is released once, and so are the key / value copies that were made");
   }
   __CPROVER_assert(!*fell, "COVER pair attached");
+  __CPROVER_assert(!(g_c.calls == 2 * i + 2 && !g_c.child_failed), "COVER both copies made");
+  __CPROVER_assert(!(g_c.calls == 2 * i + 2 && !g_c.child_failed && g_m.calls == 1), "COVER both copies made and map_add called");
+  __CPROVER_assert(!(g_c.calls == 2 * i + 2 && !g_c.child_failed && g_m.calls == 1 && g_d.hits == 0), "COVER pair added, nothing released");
   __CPROVER_assert(!(!*fell && g_c.calls == 2 * i + 1), "COVER key copy failed");
   __CPROVER_assert(!(!*fell && g_c.calls == 2 * i + 2 && g_c.child_failed), "COVER value copy failed");
   __CPROVER_assert(!(!*fell && !g_c.child_failed), "COVER map_add failed");
@@ -339,3 +342,4 @@ void harness(void) {
   __CPROVER_assert(0, "COVER returned");
 }
 #endif
+
